@@ -323,6 +323,47 @@ fn c12_f128_element() {
     kani::cover!(true);
 }
 
+
+// FRI proofs whose remainder section is NOT a power-of-two number of BYTES (e.g. 2 cubic elements of 6 bytes over the toy field;
+// 4 elements of 24 bytes over the 64-bit field's cubic extension) decode to a value that re-encodes to the same bytes
+macro_rules! c12_fri_proof_remainder_bytes {
+    ($name:ident, $len:expr) => {
+        #[kani::proof]
+        #[kani::unwind(30)]
+        #[kani::stub(alloc::fmt::format, nofmt)]
+        fn $name() {
+            use math::fields::CubeExtension;
+            // [0 layers][u16 remainder length][remainder bytes][partition exponent 0]
+            let mut bytes: [u8; 1 + 2 + $len + 1] = kani::any();
+            bytes[0] = 0; bytes[1] = $len; bytes[2] = 0; bytes[3 + $len] = 0;
+            let mut r = SliceReader::new(&bytes);
+            let p = fri::FriProof::read_from(&mut r);
+            assert!(p.is_ok());
+            assert!(!r.has_more_bytes());
+            let p = p.unwrap();
+            let again = p.to_bytes();
+            assert!(again.len() == bytes.len());
+            let i: usize = kani::any();
+            kani::assume(i < bytes.len());
+            assert!(again[i] == bytes[i]);
+            // canonical coordinates: the remainder parses as ($len / 6) cubic toy-field elements when that count is a power of two
+            let mut canonical = true;
+            let mut k = 0;
+            while k < $len / 2 { if u16::from_le_bytes([bytes[3 + 2 * k], bytes[4 + 2 * k]]) >= 257 { canonical = false; } k += 1; }
+            let rem = p.parse_remainder::<CubeExtension<T>>();
+            if $len % 6 == 0 && (($len / 6) as usize).is_power_of_two() { assert!(rem.is_ok() == canonical); } else { assert!(rem.is_err()); }
+            kani::cover!(canonical);
+            core::mem::forget((p, rem));
+        }
+    };
+}
+// @ob id=C12 tier=quick req=1 to=900 fs=1 name=c12_fri_proof_remainder_12 funcs="FriProof::read_from,FriProof::write_into,FriProof::parse_remainder" bounds="no layers; remainder of 12 bytes (2 cubic toy-field elements)" sym="all remainder bytes" enum="remainder length"
+c12_fri_proof_remainder_bytes!(c12_fri_proof_remainder_12, 12);
+// @ob id=C12 tier=quick req=1 to=900 fs=1 name=c12_fri_proof_remainder_6 funcs="FriProof::read_from,FriProof::write_into,FriProof::parse_remainder" bounds="no layers; remainder of 6 bytes (1 cubic toy-field element)" sym="all remainder bytes" enum="remainder length"
+c12_fri_proof_remainder_bytes!(c12_fri_proof_remainder_6, 6);
+// @ob id=C12 tier=quick req=1 to=900 fs=1 name=c12_fri_proof_remainder_10 funcs="FriProof::read_from,FriProof::write_into,FriProof::parse_remainder" bounds="no layers; remainder of 10 bytes (not a whole number of cubic elements)" sym="all remainder bytes" enum="remainder length"
+c12_fri_proof_remainder_bytes!(c12_fri_proof_remainder_10, 10);
+
 // @ob id=C12 tier=quick req=1 to=300 expect=fail desc="vacuity twin for the round-trip family"
 #[kani::proof]
 #[kani::unwind(11)]
